@@ -129,6 +129,13 @@ pub fn install_panic_hook() {
         LAST_PANIC.with(|p| *p.borrow_mut() = format!("{} at {}", msg, loc));
     }));
 }
+/// Hook for fuzz targets: remember the message and still print it (the process dies anyway).
+pub fn install_panic_hook_verbose() {
+    std::panic::set_hook(Box::new(|info| {
+        eprintln!("panic: {}", info);
+        LAST_PANIC.with(|p| *p.borrow_mut() = format!("{}", info));
+    }));
+}
 pub fn last_panic() -> String {
     LAST_PANIC.with(|p| p.borrow().clone())
 }
